@@ -3,7 +3,7 @@
 
 use serde::{Deserialize, Serialize};
 use std::io::{Read, Write};
-use std::os::unix::process::{CommandExt, ExitStatusExt};
+use std::os::unix::process::ExitStatusExt;
 use std::path::{Path, PathBuf};
 use std::process::{Command, Stdio};
 use std::sync::atomic::{AtomicU64, Ordering};
@@ -184,13 +184,8 @@ pub fn run_limit(cmd: &Cmd, cwd: &Path, limit: Duration) -> Out {
         }
     }
     c.stderr(Stdio::piped());
-    unsafe {
-        c.pre_exec(|| {
-            // new session: no controlling terminal, so /dev/tty can never be opened
-            libc::setsid();
-            Ok(())
-        });
-    }
+    // no pre_exec: kv itself runs in its own session without a controlling terminal (see detach_tty),
+    // children inherit that, so /dev/tty can never be opened and std can use the fast posix_spawn path
     let t0 = Instant::now();
     let mut child = match c.spawn() {
         Ok(ch) => ch,
@@ -247,5 +242,37 @@ pub fn keyring_entry(name: &str, pk: &str, sk: Option<&str>) -> String {
     match sk {
         Some(sk) => format!("[Key]\nName = {}\nPublicKey = {}\nPrivateKey = {}\n", name, pk, sk),
         None => format!("[Key]\nName = {}\nPublicKey = {}\n", name, pk),
+    }
+}
+
+/// Put this process into a new session without a controlling terminal (children inherit it), so that the
+/// CLI's password prompt can never open /dev/tty. If we are a process-group leader, setsid() is refused:
+/// fork once, let the child become the session leader and continue, the parent only relays the exit status.
+pub fn detach_tty() {
+    unsafe {
+        if libc::setsid() == -1 {
+            let pid = libc::fork();
+            if pid < 0 {
+                crate::report::machinery("fork failed");
+            }
+            if pid > 0 {
+                let mut st: i32 = 0;
+                loop {
+                    let r = libc::waitpid(pid, &mut st, 0);
+                    if r == pid || (r == -1 && *libc::__errno_location() != libc::EINTR) {
+                        break;
+                    }
+                }
+                let code = if libc::WIFEXITED(st) { libc::WEXITSTATUS(st) } else { 2 };
+                libc::_exit(code);
+            }
+            libc::prctl(libc::PR_SET_PDEATHSIG, libc::SIGKILL);
+            libc::setsid();
+        }
+        let fd = libc::open(b"/dev/tty\0".as_ptr() as *const libc::c_char, libc::O_RDWR);
+        if fd >= 0 {
+            libc::close(fd);
+            crate::report::machinery("/dev/tty can still be opened: controlling terminal not detached");
+        }
     }
 }
